@@ -20,8 +20,16 @@ type ChannelListener struct {
 	stop    context.CancelFunc
 }
 
-func (ln *ChannelListener) SendToChannel(conn net.Conn) {
-	ln.channel <- conn
+// SendToChannel hands conn to Accept. It fails instead of blocking forever
+// once the listener has been closed (or its context cancelled), because then
+// nobody will call Accept anymore.
+func (ln *ChannelListener) SendToChannel(conn net.Conn) error {
+	select {
+	case ln.channel <- conn:
+		return nil
+	case <-ln.context.Done():
+		return ln.context.Err()
+	}
 }
 
 func (ln *ChannelListener) Accept() (net.Conn, error) {
